@@ -6,6 +6,7 @@ CONSTANTS
   AsIsDeviation = FALSE
   EnablePrune = TRUE
   EnableForeign = FALSE
+  SlowThr = 1000000
 SPECIFICATION Spec
 INVARIANTS TypeOK NoRequestBelowOldHeader FetchAllowed StoreOnHonestChain HeadAboveSynced
 CHECK_DEADLOCK FALSE
